@@ -106,6 +106,9 @@ def gen_ops(ctx):
             pairs = [(rng.choice(allp), rng.choice(allp)) for _ in range(60000)]
         for a, b in pairs:
             ops += [f'C08 mul {n} {a} {b}', f'C08 comm {n} {a} {b}']
+        # out-of-range indices must be rejected (index 4^n used to be accepted and aliased to 0: fixed in /repo b5eb57e)
+        for idx in (4 ** n, 4 ** n + 1, 2 * 4 ** n):
+            ops += [f'C08 ofindex {n} {idx}', f'C08 idx2str {n} {idx}']
         for idx in range(4 ** n):
             ops += [f'C08 ofindex {n} {idx}', f'C08 idx2str {n} {idx}']
             s = ''.join('IXYZ'[(idx >> (2 * (n - 1 - j))) & 3] for j in range(n))
